@@ -144,6 +144,12 @@ def axis_values(n: int, kind: str, origin: float) -> np.ndarray:
         values = (origin + 0.5 * np.arange(n))[::-1].copy()
     elif kind == 'descnonuni':
         values = (origin + np.concatenate([[0.0], np.cumsum(GAPS[:max(0, n - 1)])])[:n])[::-1].copy()
+    elif kind in ('int', 'intdesc'):
+        # whole-degree coordinates stored as integers (midpoints fall on x.5)
+        values = (int(origin) + np.arange(n)).astype('int32')
+        return values[::-1].copy() if kind == 'intdesc' else values
+    elif kind == 'float32':
+        return (origin + 0.5 * np.arange(n)).astype('float32')
     else:
         raise ValueError(kind)
     return values.astype('float64')
@@ -155,6 +161,7 @@ def midpoint_bounds(values: np.ndarray) -> np.ndarray | None:
     n = len(values)
     if n < 2:
         return None
+    values = np.asarray(values, dtype='float64')
     edges = np.empty(n + 1)
     for k in range(1, n):
         edges[k] = (values[k - 1] + values[k]) / 2
@@ -168,6 +175,7 @@ def stored_bounds(values: np.ndarray, mode: str) -> np.ndarray:
     'contig': contiguous, edge between k and k+1 at the quarter point;
     'gapped': each cell spans an eighth either side of its centre (gaps between cells)."""
     n = len(values)
+    values = np.asarray(values, dtype='float64')
     out = np.empty((n, 2))
     if mode == 'gapped':
         direction = 1.0 if n < 2 or values[1] > values[0] else -1.0
